@@ -3,6 +3,7 @@ import BiotiteModel.Proofs.C12Fastq
 import BiotiteModel.Proofs.C12Loc
 import BiotiteModel.Proofs.C12Gff
 import BiotiteModel.Proofs.C12Gb
+import BiotiteModel.Proofs.C12Grp
 import BiotiteModel.Gen.C12
 /-!
 # C12 — property theorems (sequence file formats return what was written)
@@ -187,6 +188,16 @@ theorem C12_gff_created_line_is_entry (e : GffEntry Str) (line : Str)
   createLine_isEntryLine _ C12_gen_not_quoted.1 e line h
 
 
+
+/-- **ID-grouped locations** (`gff/convert.py`): the entries `set_annotation` writes for a list of
+features (one per location, same type and attributes) are grouped back by `get_annotation` into
+exactly these features — key, qualifiers and every location with its strand — provided each
+feature has a location, a feature with several locations has an `ID` (enforced by
+`set_annotation`) and consecutive features do not share an `ID`.  Any string type, any `ID` key. -/
+theorem C12_gff_grouping (fs : List (GFeat Str)) (hok : ∀ f ∈ fs, GFeatOk "ID".toList f)
+    (hids : GIdsOk "ID".toList fs) : gffGroup "ID".toList (fs.flatMap gffExpand) = fs :=
+  gff_grouping _ fs hok hids
+
 /-! ## GenBankFile as a list of fields -/
 
 /-- **Edit consistency (GenBank).**  `GbWF g`: the lines are field blocks (header line in column 0,
@@ -266,5 +277,11 @@ example : GbNameOk " Source ".toList ∧ GbContentOk "ORIGIN".toList ["        1
 
 example : (gbAppend Gb.empty "locus".toList ["x".toList] []).map (fun g => (g.lines.map String.ofList, g.pos.map (fun p => (p.1, p.2.1, String.ofList p.2.2)))) =
     .ok (["LOCUS       x", "//"], [(0, 1, "LOCUS")]) := by decide
+
+example : gffGroup "ID".toList
+    [⟨"CDS".toList, (1, 5, some false), [("ID".toList, "a".toList)]⟩, ⟨"CDS".toList, (9, 12, some false), [("ID".toList, "a".toList)]⟩,
+     ⟨"gene".toList, (1, 12, some true), []⟩, ⟨"gene".toList, (20, 30, none), []⟩] =
+    [⟨"CDS".toList, [(1, 5, some false), (9, 12, some false)], [("ID".toList, "a".toList)]⟩,
+     ⟨"gene".toList, [(1, 12, some true)], []⟩, ⟨"gene".toList, [(20, 30, none)], []⟩] := by decide
 
 end BiotiteModel.C12
